@@ -578,6 +578,9 @@ func init() {
 	reg(&propDef{id: "C13", level: "exploration", crashIsViol: true,
 		batches: []batch{{name: "relay", quick: 4000, thorough: 200000}},
 		rule:    "each evaluation is one real relay between a scripted client and a scripted server running 1-3 handshakes (confirm, cancel, malformed ACT, malformed CFG; ended by EXIT, fail from either side, or Ctrl-C) with arbitrary bytes before, after and in the same chunk as the trigger/ACT/CFG lines, typed-ahead junk, a CFG already in flight, tape-chosen think times, segmentation and coalescing, under random / PCT / run-to-block schedules with a scheduling point in front of every atomic, lock and channel operation of relay.go and buffer.go; oracle = reference model of both output streams (identity except the rewritten trigger, the decoded-and-compared ACT/CFG lines, consumed malformed lines and relay-made FAIL lines); non-trivial = all scripted bytes were written and both streams compared; distinct = distinct (outcome sequence + segmentation, schedule-trace hash, tape hash)"})
+	reg(&propDef{id: "C14", level: "exploration", crashIsViol: false,
+		batches: []batch{{name: "relays", quick: 1200, thorough: 60000}, {name: "overtake", params: map[string]string{"overtake": "1"}, quick: 800, thorough: 20000}},
+		rule:    "each evaluation is a sequence of two real transfers through one or two real relays (each inside or outside tmux, normal or control mode) with a generated client capability set (protocol 1-9, binary, directory support rewritten into the ACT before the first relay) and server option set; the first transfer ends by exit, user stop through the prompt, a server-side disk error, SIGINT at the server or a refused ACT; oracles: decoded ACT after the last relay (binary off without tunnel, protocol <= 4 and <= offered, other fields preserved), decoded CFG at the client (server settings preserved, tmux junk flag / pane width added), files as in a direct transfer, every relay back in standby, transparency probe through the relays, and the second transfer succeeds with identical files; non-trivial = all of that ran; distinct = distinct (configuration + capabilities + ending, schedule-trace hash, tape hash)"})
 	reg(&propDef{id: "C15", level: "exploration", crashIsViol: true,
 		batches: []batch{{name: "component", params: map[string]string{"mode": "component"}, quick: 1500, thorough: 40000},
 			{name: "system", params: map[string]string{"mode": "system"}, quick: 500, thorough: 15000},
